@@ -128,6 +128,7 @@ def live_registry(run):
             inherit = "aliases" not in c.__dict__
             table.append({"parent": parent, "inherit": inherit, "own": sorted(c.__dict__.get("aliases", set())), "name": c.__name__})
         all_aliases = sorted({a for c in order for a in getattr(c, "aliases", set())}) + ["no-such-alias", ""]
+        all_aliases += [a.upper() for a in all_aliases[:4] if a.upper() != a] + [a.capitalize() for a in all_aliases[:2] if a.capitalize() != a]
         # aliases that only other families know are unknown here
         all_aliases += sorted(foreign - set(all_aliases))
         queries = []
@@ -372,7 +373,7 @@ def run(tier, seed):
         raise common.MachineryError("canary: pre-order walk was not refuted")
     run.extra.setdefault("canaries", []).append({"module": "Alias", "variant": "WalkOrder=pre", "refuted_by": r.violated})
     # code -> spec
-    aliases = ["x", "y"]
+    aliases = ["x", "Xy"]  # (matched as written: "Xy" is neither "xy" nor "x")
     maxc = 4 if tier == "quick" else 5
     traces, tid = [], 0
     fresh, nhist = {}, 0
